@@ -21,6 +21,12 @@ fn main() {
         let r = catch_unwind(AssertUnwindSafe(|| {
             let mut env = Environment::new();
             env.set_fuel(Some(fuel.unwrap_or(1_000_000)));
+            match req["undefined"].as_str() {
+                Some("chainable") => env.set_undefined_behavior(minijinja::UndefinedBehavior::Chainable),
+                Some("semi_strict") => env.set_undefined_behavior(minijinja::UndefinedBehavior::SemiStrict),
+                Some("strict") => env.set_undefined_behavior(minijinja::UndefinedBehavior::Strict),
+                _ => {}
+            }
             if let Some(extra) = req["templates"].as_object() {
                 // companion templates (engine B's multi-template families)
                 for (n, s) in extra {
